@@ -174,6 +174,9 @@ def run(c):
     import random
     from .. import e2e_leg
     e2e_leg.e2e_leg(c, random.Random(c.seed + 21), 8 if quick else 120)
+    e2e_leg.two_lives_leg(c)
+    if not quick:
+        e2e_leg.repo_it_leg(c)
 
 
 if __name__ == '__main__':
